@@ -231,6 +231,7 @@ def run(chk):
                 if h in ("for", "lfor", "with", "let"):
                     voc["L:" + tk] = (lambda tk=tk: List([targets[tk](), Tok("t9", "E")]))
                     TASKS.append(("macro", mangle(h), ("L:" + tk,) + rest))
+    import gc; gc.collect(); gc.freeze()  # forked workers then touch (copy) far fewer pages
     with mp.get_context("fork").Pool(chk.jobs) as pool:
         res = pool.map(_work, range(len(TASKS)), chunksize=512)
     counts = {}
